@@ -128,7 +128,7 @@ Example C06_block_canonical_instance :
 Proof. vm_compute. reflexivity. Qed.
 Print Assumptions C06_block_canonical_instance.
 
-(* ---- repaired defects: the witnesses of the /repo fixes 86c56b5 and add6c27 (found by the audit) -----------------
+(* ---- repaired defects: the witnesses of the /repo fixes 9047e02 and 09d2c36 (found by the audit) -----------------
    (1) nested launch in front of the setup.  The loop body starts with `scf.if %c { launch(%l0); await }`.  The
    guard of the loop rule ("a launch between the loop start and the setup") now looks into regions
    ([has_launch_before]), so the rule bails out.  [C06_nested_unrepaired] is what the pass produced before the fix
